@@ -187,8 +187,31 @@ def T_try_in_loop_continue_far(n):
 
 
 def T_nested_arrays(n):
-    d = min(n, 400)
-    return "[" * d + "1" + "]" * d + ".length", 1
+    return "[" * n + "1" + "]" * n + ".length", 1
+
+
+def T_nested_parens(n):
+    return "(" * n + "7" + ")" * n, 7
+
+
+def T_nested_calls(n):
+    return "function id(x) { return x; } " + "id(" * n + "3" + ")" * n, 3
+
+
+def T_nested_blocks_and_ifs(n):
+    return "var s = 0; " + "if (1) { " * n + "s = 5;" + " }" * n + " s", 5
+
+
+def T_nested_functions(n):
+    return "(function () { return " * n + "9" + "; })()" * n, 9
+
+
+def T_flat_sum_long(n):
+    return "var a = 1; " + "+".join(["a"] * (n + 1)), n + 1
+
+
+def T_flat_call_chain(n):
+    return "function f() { return f; } f" + "()" * n + " === f", True
 
 
 TEMPLATES = {k[2:]: v for k, v in list(globals().items()) if k.startswith("T_")}
@@ -304,6 +327,8 @@ def decode_num(r):
     import struct
     if r and r[0] == "d" and r[1] != "nan":
         return struct.unpack(">d", bytes.fromhex(r[1]))[0]
+    if r and r[0] == "b":
+        return r[1]
     return None
 
 
@@ -320,8 +345,6 @@ def main(ctx):
         if not ctx.quick:
             ns += [rng.randint(5000, 80000) for _ in range(3)]
         for n in sorted(set(ns)):
-            if name in ("nested_arrays",) and n > 400:
-                continue
             if name in ("captured", "params", "locals", "globals", "functions", "object", "switch_cases", "num_consts",
                         "str_consts", "array_distinct") and n > 5000:
                 continue   # refused at 256 anyway; beyond this only parse time grows
